@@ -1,7 +1,7 @@
 """CFG-*: option value reader/writer (src/option.cpp, src/option.h, generated option_enum.cpp)."""
 import os
 import re
-TUS = ['$BUILD/src/options.cpp', '$BUILD/src/option_enum.cpp', '$HARNESS/stdstr.cpp']
+TUS = ['$BUILD/src/options.cpp', '$HARNESS/chartable.cpp', '$BUILD/src/option_enum.cpp', '$HARNESS/stdstr.cpp']
 PATCH = [dict(file='option.cpp', subs=[
     (r'^OptionWarning::OptionWarning\(const char \*filename, Severity severity\)', 'static void vp_detached_ctor1(const char *filename, OptionWarning::Severity severity)', 1),
     (r'^OptionWarning::OptionWarning\(const GenericOption \*opt, Severity severity\)', 'static void vp_detached_ctor2(const GenericOption *opt, OptionWarning::Severity severity)', 1),
